@@ -8,8 +8,10 @@ CLAIMED = {
         text="Lean 4 theorems over a statement-by-statement model of utils.longest_common_subsequence: for every pair "
         "of lengths and every relation (no reflexivity/symmetry/transitivity) the helper returns a list (never None, "
         "KeyError or a negative index), every pair is in range and related, and pairs strictly increase in both "
-        "coordinates. Maximality is checked against a DP optimum on the real code (exhaustive small scope + random), "
-        "not yet proved. The model is tied to /repo by running both on the same relations (U3).",
+        "coordinates, and no strictly increasing list of in-range related pairs is longer than the returned one "
+        "(C12_maximum: Myers' furthest-reaching invariant, every edit path with d non-diagonal moves ends no further "
+        "on its diagonal than the stored entry). The optimum is also compared with an independent DP on the real code "
+        "(exhaustive small scope + random). The model is tied to /repo by running both on the same relations (U3).",
         note="Trusted: Lean kernel; axioms propext/Classical.choice/Quot.sound; the hand-written model's fidelity is "
         "checked by differential execution on every run, not proved; the Python harness and DP oracle.",
         technique="Lean 4 proof (loop invariants over a functional model) + model/code differential correspondence",
